@@ -77,12 +77,29 @@ fn floor_exact(x: f32) -> Option<i128> {
 #[derive(Clone, Copy, PartialEq, Debug)]
 struct Expect(Option<u32>, Option<u32>);
 
+/// For the relative entry points: "the absolute one scaled by the texture
+/// size" leaves open whether tc·size is rounded to f32 before the floor (as
+/// the library does) or not (f64, fused, integer scaling). Where the two
+/// disagree — only for non-power-of-two sizes at a texel boundary — either
+/// texel is accepted on that axis.
+#[derive(Clone, Copy, Debug)]
+struct Alt(Option<u32>, Option<u32>);
+
 fn expect_repeat(c: f32, size: u32) -> Option<u32> {
     let f = floor_exact(c)?;
     if (c as f64).abs() >= 2147483648.0 {
         return None;
     }
     Some(f.rem_euclid(size as i128) as u32)
+}
+/// Clamp expectation for a relative coordinate scaled exactly (no f32 rounding
+/// of the product).
+fn exact_clamp(tc: f32, size: u32) -> Option<u32> {
+    if tc.is_nan() {
+        return None;
+    }
+    let hi = (size - 1) as f64;
+    Some((tc as f64 * size as f64).max(0.0).min(hi).floor() as u32)
 }
 fn expect_clamp(c: f32, size: u32) -> Option<u32> {
     if c.is_nan() {
@@ -98,6 +115,20 @@ fn judge(
     what: &str,
     got: Result<u32, String>,
     exp: Expect,
+    w: u32,
+    h: u32,
+    case: impl Fn() -> Json,
+) {
+    judge_alt(rep, what, got, exp, Alt(None, None), w, h, case)
+}
+
+#[allow(clippy::too_many_arguments)]
+fn judge_alt(
+    rep: &mut Report,
+    what: &str,
+    got: Result<u32, String>,
+    exp: Expect,
+    alt: Alt,
     w: u32,
     h: u32,
     case: impl Fn() -> Json,
@@ -120,7 +151,12 @@ fn judge(
                 return;
             }
             let (gx, gy) = (t & 0xFFFF, t >> 16);
-            if exp.0.is_some_and(|x| x != gx) || exp.1.is_some_and(|y| y != gy) {
+            let okx = exp.0.map_or(true, |x| x == gx) || alt.0.is_some_and(|x| x == gx);
+            let oky = exp.1.map_or(true, |y| y == gy) || alt.1.is_some_and(|y| y == gy);
+            if (alt.0.is_some() && alt.0 != exp.0) || (alt.1.is_some() && alt.1 != exp.1) {
+                rep.count("coord.relative_product_rounds_across_a_texel_boundary(either texel accepted)");
+            }
+            if !(okx && oky) {
                 rep.violation(
                     &format!("tex.{what}.wrong_texel"),
                     format!("{what}: got texel ({gx},{gy}), expected ({}, {})", exp.0.map_or("any".into(), |x| x.to_string()), exp.1.map_or("any".into(), |y| y.to_string())),
@@ -173,6 +209,9 @@ fn probe<D: AsSlice2<u32>>(rep: &mut Report, tex: &Texture<D>, w: u32, h: u32, p
         match (&rel, &abs) {
             (Ok(a), Ok(b)) if a == b => {}
             (Err(_), Err(_)) => {} // panic reported below through judge
+            // outside the stated domain (NaN, infinite, ≥ 2^31 after scaling)
+            // the two entry points may land on different texels
+            _ if expect_repeat(su, w).is_none() || expect_repeat(sv, h).is_none() => rep.count("repeat.rel_ne_abs_outside_the_domain(not judged)"),
             _ => rep.violation(
                 "tex.repeat.rel_ne_abs",
                 format!("sample(tc)={rel:?} but sample_abs(tc*size)={abs:?}"),
@@ -198,6 +237,10 @@ fn probe<D: AsSlice2<u32>>(rep: &mut Report, tex: &Texture<D>, w: u32, h: u32, p
         match (&rel, &abs) {
             (Ok(a), Ok(b)) if a == b => {}
             (Err(_), Err(_)) => {}
+            // NaN: the statement only asks for "no panic"; and where the exact
+            // product and its f32 rounding fall on different texels, a relative
+            // entry point that scales exactly differs from sample_abs(f32 product)
+            _ if u.is_nan() || v.is_nan() || exact_clamp(u, w) != expect_clamp(su, w) || exact_clamp(v, h) != expect_clamp(sv, h) => rep.count("clamp.rel_ne_abs_outside_the_domain_or_at_a_rounding_boundary(not judged)"),
             _ => rep.violation(
                 "tex.clamp.rel_ne_abs",
                 format!("sample(tc)={rel:?} but sample_abs(tc*size)={abs:?}"),
@@ -205,7 +248,7 @@ fn probe<D: AsSlice2<u32>>(rep: &mut Report, tex: &Texture<D>, w: u32, h: u32, p
             ),
         }
         let exp_rel = Expect(expect_clamp(su, w), expect_clamp(sv, h));
-        judge(rep, "clamp.sample", rel, exp_rel, w, h, case);
+        judge_alt(rep, "clamp.sample", rel, exp_rel, Alt(exact_clamp(u, w), exact_clamp(v, h)), w, h, case);
     }
 
     // --- unchecked sampler: only for in-range coordinates
@@ -220,7 +263,8 @@ fn probe<D: AsSlice2<u32>>(rep: &mut Report, tex: &Texture<D>, w: u32, h: u32, p
     if in_range(su, w) && in_range(sv, h) && u >= 0.0 && v >= 0.0 {
         let exp = Expect(Some((su as f64).floor() as u32), Some((sv as f64).floor() as u32));
         let got = catch(|| SamplerOnce.sample(tex, uv(u, v)));
-        judge(rep, "once.sample", got, exp, w, h, case);
+        let ex = |c: f32, n: u32| Some(((c as f64 * n as f64).floor() as u32).min(n - 1));
+        judge_alt(rep, "once.sample", got, exp, Alt(ex(u, w), ex(v, h)), w, h, case);
         rep.count("op.once.sample");
     }
 }
